@@ -862,6 +862,9 @@ func (c *Ctx) doLock(s *State, in ssa.Instruction, key string, base Term, write 
 		for _, e := range env.errs {
 			c.unsupported("lock invariant " + key + ": " + e)
 		}
+		if len(env.errs) > 0 {
+			inv = True
+		}
 		s.assume(inv)
 	}
 	if s.atLock == nil {
@@ -919,6 +922,9 @@ func (c *Ctx) doUnlock(s *State, in ssa.Instruction, key string, base Term, pos 
 			c.unsupported("lock invariant " + key + ": " + e)
 		}
 		props := li.Props
+		if len(env.errs) > 0 {
+			inv = True // not decided (reported as such), no alarm
+		}
 		c.oblige(s, "lockinv", fmt.Sprintf("%s/unlock@%s#%d:lockinv:%s", fk, otag(in), ord, key), inv, pos, "lock invariant must hold at release: "+li.Src, props)
 	}
 	if idx >= 0 {
